@@ -208,7 +208,8 @@ def run(chk):
         "translator lib/x_mm.py (lsp.json -> Gen/MMData.v)",
         "lib/x_vectors.py: file name parsing and the printer JSON value -> Coq `json` term (cj_tab); json.loads of CPython for reading a vector",
         "specification choices of coq/MM.v (valid) and coq/Strict.v (msg_valid): the pinned strict reading of DESIGN.md C17",
-        "class naming rule of Strict.msg_classes (typeName with Request/Response/Notification suffix), cross-checked against the Python reference's table",
+        "class naming rule of Strict.msg_classes (typeName with Request/Response/Notification suffix), cross-checked against the Python reference's table; "
+        "for an entry WITHOUT typeName (evolved models only) the class is the one the tree's Python catalogue METHOD_TO_TYPES registers for the method (named_model)",
         "`Eval vm_compute` output of coqc is read for the list of disagreeing vectors (shards where nothing disagrees additionally carry the kernel-checked lemma shard_agrees)",
         "lib/r_vectors.py runs the real converter exactly as tests/python/test_generated_data.py does",
         "lib/c17_history.py: construction of the sub-models / evolved models from lsp.json (restriction to methods and their reachable "
